@@ -37,16 +37,41 @@ def probe_eq(r, F):
                 r.fail(f, "eq-closure", "the equality closure of the probe could not be resolved", ln=t.ln)
                 continue
             c = F.P[cdef]
-            ret = backslice(c, 0, "prov")
-            cmps = [tt for _, tt in ret.calls if tt.callee and re.search(r"Equivalent::equivalent$|cmp::PartialEq::(eq|ne)$", tt.callee)]
-            ok = False
-            for tt in cmps:
+            # the closure may answer `true` only with the verdict of a key comparison: every definition of its result is either
+            # such a comparison, the constant false (a conjunction's short circuit), or a copy of one of those
+            def key_cmp(tt):
+                if not (tt.callee and re.search(r"Equivalent::equivalent$|cmp::PartialEq::eq$", tt.callee)):
+                    return False
                 k0 = _is_key_of(c, tt.args[0], True)
                 k1 = _is_key_of(c, tt.args[1], True)
-                # one side: key of the probed element (param 2); other side: the looked-up key (an upvar); the
-                # looked-up side is either a key accessor result or the key reference itself
-                if (k0[0] and k0[1] and k1[2] and not k1[1]) or (k1[0] and k1[1] and k0[2] and not k0[1]):
-                    ok = True
+                return bool((k0[0] and k0[1] and k1[2] and not k1[1]) or (k1[0] and k1[1] and k0[2] and not k0[1]))
+            ok, seen_cmp, work, visited = True, False, [0], set()
+            while work:
+                l = work.pop()
+                if l in visited:
+                    continue
+                visited.add(l)
+                ds = [d for d in c.defs().get(l, []) if not c.blocks[d[0]].cleanup]
+                if not ds:
+                    ok = False
+                for (bb, i, kind, payload) in ds:
+                    if kind == "call":
+                        if key_cmp(payload):
+                            seen_cmp = True
+                        else:
+                            ok = False
+                    elif kind == "assign":
+                        rv = payload.rv
+                        if rv.k == "use" and rv.ops[0].is_const():
+                            if rv.ops[0].const_val() != 0:
+                                ok = False      # `true` without comparing keys (e.g. `hash == h || key == k`)
+                        elif rv.k == "use" and rv.ops[0].place is not None and rv.ops[0].place.is_local():
+                            work.append(rv.ops[0].place.local)
+                        else:
+                            ok = False
+                    else:
+                        ok = False
+            ok = ok and seen_cmp
             r.require(ok, f, "probe compares keys (%s)" % t.callee.rsplit("::", 1)[-1],
                       "the probe's eq closure compares the probed element's key with the looked-up key",
                       "the probe's equality closure does not compare the probed element's KEY with the looked-up key: two keys with the same "
